@@ -106,6 +106,11 @@ def judge(s, mlines, ilines, verdict, oracle=None):
     for k in range(max(len(mlines), len(il))):
         a = mlines[k] if k < len(mlines) else "<missing>"
         b = il[k] if k < len(il) else "<missing>"
+        if a.startswith("loc ") and b.startswith("loc ") and k > 0:
+            # the error location is only meaningful after a parse error; otherwise it is whatever an
+            # earlier read (possibly of an earlier scenario in the same process) left behind
+            if not re.match(r"rc=(9|10|11|12) ", il[k - 1] + " "):
+                continue
         if not vlib.line_equal(a, b):
             is_obs = s.obs[k] if k < len(s.obs) else True
             det = "command %d `%s`: model %s | implementation %s" % (k, s.cmds[k][:120] if k < len(s.cmds) else "?", a[:300], b[:300])
